@@ -157,6 +157,12 @@ struct Eng {
   op_events: Vec<u64>,
   /// arena values (originals, clones, clones embedded in owned handles) currently alive
   values: i64,
+  /// rolling hash of everything each logical thread has observed so far (identifies its continuation)
+  hist: Vec<u64>,
+  /// state key at every recorded choice point (only when state caching is on)
+  choice_keys: Vec<u64>,
+  cache_keys: bool,
+  bounded: bool,
 }
 
 thread_local! {
@@ -206,11 +212,57 @@ fn decide(e: &mut Eng, cur_ok: bool, costly: bool) -> Option<usize> {
     e.aborting = true;
     return Some(opts[0]);
   }
+  if e.cache_keys {
+    let k = choice_key(e, cur_ok, costly);
+    e.choice_keys.push(k);
+  }
   e.choices.push(Choice { n: n as u8, chosen: c, pre_before: e.preempt, costly: cur_ok && costly });
   if cur_ok && costly && c != 0 {
     e.preempt += 1;
   }
   Some(opts[c as usize])
+}
+
+#[inline]
+fn mix(h: &mut u64, x: u64) {
+  *h ^= x;
+  *h = h.wrapping_mul(0x100000001b3);
+  *h ^= *h >> 29;
+}
+
+/// Key of the global state at a choice point: two prefixes that reach equal keys have the same
+/// futures (memory image, every thread's continuation, scheduler and oracle state).
+fn choice_key(e: &Eng, cur_ok: bool, costly: bool) -> u64 {
+  let mut h: u64 = 0x9e3779b97f4a7c15;
+  unsafe {
+    let p = e.rg.base as *const u64;
+    for i in 0..e.rg.cap / 8 {
+      mix(&mut h, std::ptr::read_volatile(p.add(i)));
+    }
+    if !e.torn_down {
+      // header (plain layout) and reference counter live in the Memory box
+      let b = e.rg.memory_box as *const u64;
+      for i in 0..e.rg.memory_box_len / 8 {
+        mix(&mut h, std::ptr::read_volatile(b.add(i)));
+      }
+    }
+  }
+  for t in 0..e.n {
+    mix(&mut h, e.hist[t]);
+    let st = match e.st[t] {
+      St::Runnable => 1u64,
+      St::Parked(ep) => 2 + (e.wepoch > ep) as u64,
+      St::Finished => 4,
+    };
+    mix(&mut h, st << 8 | ((e.yield_epoch[t] == e.wepoch) as u64) << 4 | e.in_op[t] as u64);
+  }
+  mix(&mut h, e.cur as u64 | (cur_ok as u64) << 8 | (costly as u64) << 9 | (e.torn_down as u64) << 10 | (e.teardowns as u64) << 12 | ((e.values as u64) & 0xff) << 20);
+  mix(&mut h, (e.consecutive / 64) as u64);
+  if e.bounded {
+    mix(&mut h, e.preempt as u64);
+  }
+  mix(&mut h, e.live.len() as u64);
+  h
 }
 
 enum Act {
@@ -407,6 +459,13 @@ impl Hook for H {
       };
       if let Kind::Load = ev.kind {
         e.last_load[cur] = (off, old, ev.file, ev.line);
+      }
+      {
+        let mut hh = e.hist[cur];
+        mix(&mut hh, (ev.kind as u64) << 60 ^ (off as u64) << 1 ^ ok as u64);
+        mix(&mut hh, old);
+        mix(&mut hh, new ^ ((ev.line as u64) << 40));
+        e.hist[cur] = hh;
       }
       if wrote {
         if old != new {
@@ -620,6 +679,12 @@ fn reg_alloc_req(tid: usize, sh: &Shared, m: Meta4, kind: &'static str, pat: u8,
     if cap > 0 && (off < sh.dof || off + cap > allocated || off + cap > e.rg.cap) {
       e.viol.push(V { class: "out-of-bounds".into(), sig: format!("out-of-bounds:{}", kind), msg: format!("thread {} got [{},{}) outside [data_offset {}, allocated {})", tid, off, off + cap, sh.dof, allocated) });
     }
+    {
+      let mut hh = e.hist[tid];
+      mix(&mut hh, (off as u64) << 32 | cap as u64);
+      mix(&mut hh, (m.2 as u64) << 32 | m.3 as u64);
+      e.hist[tid] = hh;
+    }
     let path = if off + cap == allocated { "fresh" } else { "recycled" };
     let l = LiveH { tid, m, pat, kind, path };
     e.live.push(l.clone());
@@ -688,6 +753,9 @@ fn begin_op(tid: usize, k: usize) {
   ENG.with(|e| {
     let mut e = e.borrow_mut();
     e.op_idx[tid] = k;
+    let mut hh = e.hist[tid];
+    mix(&mut hh, 0xbe91 ^ (k as u64) << 16);
+    e.hist[tid] = hh;
     e.in_op[tid] = true;
     e.op_events[tid] = 0;
     let w = e.wepoch;
@@ -698,6 +766,9 @@ fn end_op(tid: usize) {
   ENG.with(|e| {
     let mut e = e.borrow_mut();
     e.in_op[tid] = false;
+    let mut hh = e.hist[tid];
+    mix(&mut hh, 0xe0d);
+    e.hist[tid] = hh;
     let n = e.op_events[tid];
     if n > e.max_op_events {
       e.max_op_events = n;
@@ -851,6 +922,7 @@ pub struct ExecOut {
   pub cap_hit: bool,
   pub teardowns: u32,
   pub max_op_events: u64,
+  pub choice_keys: Vec<u64>,
 }
 
 pub struct ExecOpts {
@@ -858,6 +930,10 @@ pub struct ExecOpts {
   pub hash_states: bool,
   pub hb: bool,
   pub drain: bool,
+  /// compute a state key at every choice point (for the state cache)
+  pub cache: bool,
+  /// the exploration is preemption-bounded (then the count is part of the state)
+  pub bounded: bool,
 }
 
 struct GenPool {
@@ -936,6 +1012,9 @@ pub fn run_one(h: &Harness, prefix: &[u8], o: &ExecOpts) -> ExecOut {
     e.hb = hb;
     e.fl = Some(h.fl);
     e.values = if h.own_arenas { n as i64 } else { 1 };
+    e.hist = vec![0; n + 2];
+    e.cache_keys = o.cache;
+    e.bounded = o.bounded;
   });
   // thread-owned arena values are created before the hook is armed (spawn happens-before start)
   let mut mines: Vec<Option<Arena>> = (0..n).map(|_| if h.own_arenas { Some(arena.clone()) } else { None }).collect();
@@ -1061,6 +1140,7 @@ pub fn run_one(h: &Harness, prefix: &[u8], o: &ExecOpts) -> ExecOut {
       cap_hit: e.cap_hit,
       teardowns: e.teardowns,
       max_op_events: e.max_op_events,
+      choice_keys: std::mem::take(&mut e.choice_keys),
     }
   });
   if torn {
@@ -1134,9 +1214,13 @@ pub struct ExploreCfg {
   /// properties the violation classes are attributed to
   pub prop_of: fn(&str) -> Option<&'static str>,
   pub max_execs: u64,
+  /// prune prefixes that reach a state already expanded with at least the same remaining budget
+  pub cache: bool,
 }
 
 pub struct ExploreStats {
+  pub pruned: u64,
+  pub states: u64,
   pub execs: u64,
   pub events: u64,
   pub capped: bool,
@@ -1147,8 +1231,11 @@ pub struct ExploreStats {
 /// DFS over choice-index prefixes; every schedule with at most `bound` preemptions is run once.
 pub fn explore(run: &Run, h: &Harness, xc: &ExploreCfg, tag: &str) -> ExploreStats {
   let mut stack: Vec<Vec<u8>> = vec![vec![]];
-  let mut st = ExploreStats { execs: 0, events: 0, capped: false, max_choices: 0, max_op_events: 0 };
-  let o = ExecOpts { tracing: false, hash_states: true, hb: xc.hb, drain: xc.drain };
+  let mut st = ExploreStats { pruned: 0, states: 0, execs: 0, events: 0, capped: false, max_choices: 0, max_op_events: 0 };
+  let bounded = xc.bound < 200;
+  let o = ExecOpts { tracing: false, hash_states: !xc.cache, hb: xc.hb, drain: xc.drain, cache: xc.cache, bounded };
+  let mut seen: std::collections::HashMap<u64, u8> = std::collections::HashMap::new();
+  let mut pruned: u64 = 0;
   crate::crashguard::set_case(crate::crashguard::head_of(&json!({"engine": "sched", "tag": tag, "harness": h, "hb": xc.hb, "drain": xc.drain})));
   let mut first_trace: Option<Vec<String>> = None;
   while let Some(p) = stack.pop() {
@@ -1162,7 +1249,7 @@ pub fn explore(run: &Run, h: &Harness, xc: &ExploreCfg, tag: &str) -> ExploreSta
     crate::crashguard::EVALS.fetch_add(1, Ordering::Relaxed);
     // determinism self-test on the first schedules of every harness
     if st.execs <= 16 {
-      let o2 = ExecOpts { tracing: true, hash_states: false, hb: xc.hb, drain: xc.drain };
+      let o2 = ExecOpts { tracing: true, hash_states: false, hb: xc.hb, drain: xc.drain, cache: false, bounded };
       let a = run_one(h, &p, &o2);
       let b = run_one(h, &p, &o2);
       if a.trace != b.trace || a.choices.len() != out.choices.len() {
@@ -1203,6 +1290,21 @@ pub fn explore(run: &Run, h: &Harness, xc: &ExploreCfg, tag: &str) -> ExploreSta
     }
     for i in p.len()..out.choices.len() {
       let c = &out.choices[i];
+      if xc.cache {
+        // an aborted execution (violation found) is not cached: its siblings are still explored
+        let k = out.choice_keys[i];
+        let remaining = xc.bound.saturating_sub(c.pre_before);
+        match seen.get(&k) {
+          Some(r) if *r >= remaining => {
+            pruned += 1;
+            break;
+          }
+          _ => {
+            seen.insert(k, remaining);
+            run.states.insert(k);
+          }
+        }
+      }
       let cost = c.pre_before + if c.costly { 1 } else { 0 };
       if cost > xc.bound {
         continue;
@@ -1225,6 +1327,8 @@ pub fn explore(run: &Run, h: &Harness, xc: &ExploreCfg, tag: &str) -> ExploreSta
     run.sample(|| json!({"engine": "sched", "harness": h, "programs": progs_str(&h.progs), "schedules": st.execs, "first_schedule_trace": first_trace.clone().unwrap_or_default().into_iter().take(40).collect::<Vec<_>>()}));
   }
   crate::crashguard::clear_case();
+  st.pruned = pruned;
+  st.states = seen.len() as u64;
   st
 }
 
@@ -1232,7 +1336,7 @@ pub fn explore(run: &Run, h: &Harness, xc: &ExploreCfg, tag: &str) -> ExploreSta
 pub fn replay(case: &Value) -> i32 {
   let h: Harness = serde_json::from_value(case["harness"].clone()).expect("harness");
   let sched: Vec<u8> = if case.get("schedule").is_some() { serde_json::from_value(case["schedule"].clone()).expect("schedule") } else { case["idx"].as_array().map(|a| a.iter().map(|x| x.as_u64().unwrap() as u8).collect()).unwrap_or_default() };
-  let o = ExecOpts { tracing: true, hash_states: false, hb: case["hb"].as_bool().unwrap_or(false), drain: case["drain"].as_bool().unwrap_or(false) };
+  let o = ExecOpts { tracing: true, hash_states: false, hb: case["hb"].as_bool().unwrap_or(false), drain: case["drain"].as_bool().unwrap_or(false), cache: false, bounded: true };
   crate::crashguard::set_case(crate::crashguard::head_of(&json!({"engine": "sched", "harness": h})));
   println!("replay sched: {} fl={:?} shape={} unify={} min_seg={} schedule={:?}", progs_str(&h.progs), h.fl, h.shape, h.unify, h.min_seg, sched);
   let a = run_one(&h, &sched, &o);
